@@ -37,9 +37,18 @@ def arities(name):
     var = any(p.kind == p.VAR_POSITIONAL for p in ps)
     if var:
         return sorted({max(req, 1), max(req, 1) + 1, max(req, 1) + 2})
-    opt = len([p for p in ps if p.default is not p.empty and p.kind in (p.POSITIONAL_ONLY, p.POSITIONAL_OR_KEYWORD)])
-    # optional positional parameters as well (at most two more)
+    # optional arguments: only those EXCEL documents (an optional parameter of the implementation
+    # is often an internal switch, not a worksheet argument), at most two more
+    opt = OPTIONAL.get(name.replace('_XLFN.', '').replace('_XLWS.', ''), 0)
     return [req + i for i in range(0, min(opt, 2) + 1)]
+
+
+OPTIONAL = {
+    'ADDRESS': 3, 'AVERAGEIF': 1, 'SUMIF': 1, 'BIN2HEX': 1, 'BIN2OCT': 1, 'DEC2BIN': 1, 'DEC2HEX': 1, 'DEC2OCT': 1,
+    'HEX2BIN': 1, 'HEX2OCT': 1, 'OCT2BIN': 1, 'OCT2HEX': 1, 'CEILING.MATH': 2, 'CEILING.PRECISE': 1, 'ISO.CEILING': 1,
+    'FLOOR.MATH': 2, 'FLOOR.PRECISE': 1, 'FILTER': 1, 'FIND': 1, 'SEARCH': 1, 'IF': 2, 'INDEX': 2, 'IRR': 1, 'LEFT': 1,
+    'RIGHT': 1, 'LOG': 1, 'NPER': 2, 'PPMT': 2, 'RATE': 3, 'ROMAN': 1, 'SUBSTITUTE': 1, 'TRUNC': 1, 'WEEKDAY': 1,
+    'WEEKNUM': 1, 'XIRR': 1, 'YEARFRAC': 1}
 
 
 AR = {n: arities(n) for n in GROUP}
